@@ -2,6 +2,7 @@
 use crate::run::Builder;
 pub mod mutex;
 pub mod sem;
+pub mod scope;
 pub mod cqueue;
 pub mod condvar;
 pub mod chan;
@@ -12,6 +13,7 @@ pub fn lookup(name: &str) -> Option<Builder> {
     match name {
         "mutex" => Some(mutex::build),
         "sem" => Some(sem::build),
+        "scope" => Some(scope::build),
         "cqueue" => Some(cqueue::build),
         "condvar" => Some(condvar::build),
         "chan" => Some(chan::build),
